@@ -44,3 +44,10 @@ def Holder3(self, v0=None, v1=None, v2=None):
     self.m1 = UserInput(v1)
     self.m2 = UserInput(v2)
     return self.m0
+
+
+@Workflow.wrap.as_macro_node("out")
+def Passes(self, x=None):
+    """a single-output COMPOSITE: hands its argument through; used as owner / operand of expressions in node form"""
+    self.h = UserInput(x)
+    return self.h
